@@ -110,7 +110,7 @@ structure ECParams where
   frBits : Nat
   fpBytes : Nat
   maskKind : Nat     -- 0: no flag bits (secp256k1, raw X‖Y), 2: two flag bits, 3: three flag bits
-  infZeroCheck : Bool -- compressed-infinity encoding must be zero elsewhere (all but stark-curve)
+  infZeroCheck : Bool -- compressed-infinity encoding must be zero elsewhere (every curve; stark-curve since fix 7f7dab1)
   mimcQ : Nat        -- modulus / block size of the MiMC instance the harness pairs with this curve
   mimcSize : Nat
 deriving Repr
